@@ -27,7 +27,7 @@ def cut(res, keys, name, ter=True):
                     continue
                 fh.write(ln[:80].rstrip() + '\n')
         if ter:
-            fh.write('TER\n')
+            fh.write('TER   \n')
 
 
 def main():
@@ -43,6 +43,36 @@ def main():
         cut(r, keys[i - 1:i + 2], 'tri_' + t)
     # a longer peptide with several ionizable groups in contact
     cut(r, keys[24:32], 'pep8')
+    # C-terminus (with OXT)
+    cut(r, keys[-3:], 'cterm_PHE')
+    rb = residues(os.path.join(SRC, '1HPX.pdb'), 'B')
+
+    def seg(res, nums):
+        return [k for k in res if k[0] in nums]
+    # interacting pairs (side chains within ~4 A in 1HPX)
+    cut(r, seg(r, (34, 35, 36, 56, 57, 58, 59)), 'pair_GLU_ARG_TYR')
+    cut(r, seg(r, (28, 29, 30, 86, 87, 88)), 'pair_ASP_ARG')
+    cut(r, seg(r, (42, 43, 44, 59, 60, 61)), 'pair_LYS_ASP')
+    with open(os.path.join(OUT, 'pair_ASP_ASP.pdb'), 'w') as fh:
+        for res, ch in ((r, 'A'), (rb, 'B')):
+            for k in seg(res, (24, 25, 26)):
+                for ln in res[k]:
+                    if not ln[12:16].strip().startswith('H'):
+                        fh.write(ln[:80].rstrip() + '\n')
+            fh.write('TER   \n')
+    # a disulfide from 3SGB (chain E)
+    re_ = residues(os.path.join(SRC, '3SGB.pdb'), 'E')
+    sg = [(k, [float(l[30:38]), float(l[38:46]), float(l[46:54])]) for k in re_ for l in re_[k] if l[17:20] == 'CYS' and l[12:16].strip() == 'SG']
+    best = None
+    for i, (k1, p1) in enumerate(sg):
+        for k2, p2 in sg[i + 1:]:
+            d = sum((a - b) ** 2 for a, b in zip(p1, p2)) ** 0.5
+            if d < 2.5 and best is None:
+                best = (k1, k2)
+    if best:
+        ks = list(re_)
+        i1, i2 = ks.index(best[0]), ks.index(best[1])
+        cut(re_, ks[i1 - 1:i1 + 2] + ks[i2 - 1:i2 + 2], 'pair_CYS_CYS_bridge')
     # the ligand of 1HPX with the residues lining it is too big; take the ligand alone
     with open(os.path.join(OUT, 'lig_KNI.pdb'), 'w') as fh:
         for ln in open(os.path.join(SRC, '1HPX.pdb')):
